@@ -28,11 +28,18 @@ def scenarios(ctx: Ctx) -> List[Tuple[str, List[Tuple[str, List[cc.Event], bool]
     out.append(("corpus", cor, "enum"))
     out.append(("crash-points", list(cc.crash_scenarios()), "enum"))
     out.append(("two-writers-same-text", list(cc.two_writer_scenarios(0, 0)), "enum"))
-    two_diff = list(cc.two_writer_scenarios(0, 1))
-    if ctx.tier == "quick" and not ctx.searching:
-        two_diff = two_diff[::6]
-    out.append(("two-writers-different-text", two_diff, "enum"))
+    # two concurrent writers on DIFFERENT models in one process: all 252 interleavings also in quick (a tmp name shared
+    # between the runs of a process only shows as a foreign / damaged entry here)
+    out.append(("two-writers-different-text", list(cc.two_writer_scenarios(0, 1)), "enum"))
     out.append(("reader-vs-writer", list(cc.reader_scenarios()), "enum"))
+    out.append(("two-readers-warm", list(cc.two_reader_scenarios()), "enum"))
+    # >= 3 runs on the SAME model: paused cache-miss writer x committing writer x later cache-hit run, all orders
+    out.append(("three-runs-same-text", list(cc.three_run_scenarios(0, 0)), "enum"))
+    out.append(("three-runs-paused-writer-on-other-text", list(cc.three_run_scenarios(1, 0, ks=[cc.WARM_OPS] if ctx.tier == "quick" else None)), "enum"))
+    same = []
+    for k in range(ctx.n(60, 1500)):
+        same.append((f"random-same-{k}", cc.random_same_model_schedule(ctx.rng, ctx.rng.choice([3, 3, 4, 5])), False))
+    out.append(("random-same-model", same, "enum"))
     rnd = []
     for k in range(ctx.n(120, 2500)):
         nproc = 3 if k % 2 == 0 else ctx.rng.choice([2, 4, 5])
@@ -41,6 +48,7 @@ def scenarios(ctx: Ctx) -> List[Tuple[str, List[Tuple[str, List[cc.Event], bool]
     if ctx.tier == "thorough":
         out.append(("crash-points-big-model", list(cc.crash_scenarios()), "deep_class_hierarchy"))
         out.append(("two-writers-big-model", list(cc.two_writer_scenarios(0, 0))[::4], "deep_class_hierarchy"))
+        out.append(("three-runs-big-model", list(cc.three_run_scenarios(0, 0))[::3], "deep_class_hierarchy"))
     return out
 
 
